@@ -108,12 +108,13 @@ def build_model(rng):
     from PEPit.functions import SmoothConvexFunction, BlockSmoothConvexFunction
     pep = PEP()
     nparts = rng.choice([1, 1, 1, 2, 3])
-    parts = [pep.declare_block_partition(d=rng.choice([1, 2, 2, 3, 3, 4])) for _ in range(nparts)]
+    ds = [rng.choice([1, 2, 2, 3, 3, 4]) for _ in range(nparts)]
+    parts = [pep.declare_block_partition(d=d_) for d_ in ds]
     f = pep.declare_function(SmoothConvexFunction, L=1.0)
     pts = [pep.set_initial_point() for _ in range(rng.randint(1, 3))]
     if rng.random() < 0.5:
         pts.append(f.gradient(pts[0]))
-    desc = {"d": [p.d for p in parts], "requests": [], "n_comb": 0}
+    desc = {"d": ds, "requests": [], "n_comb": 0}
     decomposed = []
     nreq = rng.randint(0, 14)
     for _ in range(nreq):
@@ -181,6 +182,12 @@ def run_shard(spec):
             continue
         counters["models"] += 1
         local_viol = list(mon.viol[nv0:])
+        # every declaration is a NEW partition: distinct objects, all registered, with the declared number of blocks
+        if len({id(p) for p in parts}) != len(parts) or len(BlockPartition.list_of_partitions) < len(parts) or \
+                any(p.get_nb_blocks() != d_ for p, d_ in zip(parts, desc["d"])):
+            local_viol.append({"key": "declared_partitions_not_distinct",
+                               "what": "%d partitions declared (block numbers %s): %d distinct objects, %d registered"
+                                       % (len(parts), desc["d"], len({id(p) for p in parts}), len(BlockPartition.list_of_partitions))})
         label, idx = canon.sym_label_factory()
         sent_ids = {id(o) for k, o, t in rec["sent"] if k == "c"}
         for pi, part in enumerate(BlockPartition.list_of_partitions):
